@@ -57,6 +57,7 @@ type rawEv struct {
 }
 
 type tracer struct {
+	closed bool
 	mu     sync.Mutex
 	db     *leveldb.DB
 	log    []rawEv
@@ -69,6 +70,12 @@ func newTracer(db *leveldb.DB) *tracer {
 	return &tracer{db: db, roles: map[uint64]role{}, lastSV: map[uint64]int{}}
 }
 
+func (t *tracer) close() {
+	t.mu.Lock()
+	t.closed = true
+	t.mu.Unlock()
+}
+
 func (t *tracer) register(r role) {
 	g := goid()
 	t.mu.Lock()
@@ -79,6 +86,10 @@ func (t *tracer) register(r role) {
 func (t *tracer) record(kind int, a, b uint64) {
 	g := goid()
 	t.mu.Lock()
+	if t.closed {
+		t.mu.Unlock()
+		return
+	}
 	t.log = append(t.log, rawEv{gid: g, kind: kind, a: a, b: b})
 	if kind == leveldb.VerifEvCutSetVersion {
 		t.lastSV[g] = len(t.log) - 1
@@ -140,7 +151,7 @@ func (t *tracer) commit(e leveldb.VerifEdit) {
 	if idx, ok := t.lastSV[g]; ok {
 		t.log[idx].aux = info
 		delete(t.lastSV, g)
-	} else {
+	} else if !t.closed {
 		t.orphan++
 	}
 	t.mu.Unlock()
@@ -290,6 +301,23 @@ func (t *tracer) build(jrecs map[uint64]orec) (out []act, problems []string, sta
 			}
 		}
 	}
+	// pullForward: an event carries a value of db.seq (a compaction's minSeq, a reader's sequence number)
+	// that only the publication in flight can have produced: the atomic store precedes its own event, so the
+	// publication belongs before the observer
+	pullForward := func(seen uint64) bool {
+		if pend == nil || pend.newSeq < seen {
+			return false
+		}
+		s := pend.newSeq
+		if pend.setseq {
+			publish(act{kind: "KSetSeq", id: pend.w, n: s}, s)
+		} else {
+			publish(act{kind: "KPub", id: pend.w, n: s - lastSeq}, s)
+		}
+		pend = nil
+		stats["publish_pulled_forward"]++
+		return true
+	}
 	emitIns := func(w int, upTo uint64) {
 		for s := insertedUpTo + 1; s <= upTo; s++ {
 			e, ok := jrecs[s]
@@ -303,7 +331,13 @@ func (t *tracer) build(jrecs map[uint64]orec) (out []act, problems []string, sta
 			insertedUpTo = upTo
 		}
 	}
-	for _, ev := range t.log {
+	lastWorker := -1 // index of the last event of a registered goroutine
+	for i, ev := range t.log {
+		if _, ok := t.roles[ev.gid]; ok {
+			lastWorker = i
+		}
+	}
+	for i, ev := range t.log {
 		ro, known := t.roles[ev.gid]
 		switch ev.kind {
 		case leveldb.VerifEvCutRSeq:
@@ -318,13 +352,7 @@ func (t *tracer) build(jrecs map[uint64]orec) (out []act, problems []string, sta
 			case s > lastSeq:
 				// the publication to s took effect before its event was logged: it belongs here
 				if pend != nil && pend.newSeq == s {
-					if pend.setseq {
-						publish(act{kind: "KSetSeq", id: pend.w, n: s}, s)
-					} else {
-						publish(act{kind: "KPub", id: pend.w, n: s - lastSeq}, s)
-					}
-					pend = nil
-					stats["publish_pulled_forward"]++
+					pullForward(s)
 				} else {
 					bad("reader %d fixed sequence number %d while db.seq was %d with no matching publication in flight", r, s, lastSeq)
 				}
@@ -375,7 +403,11 @@ func (t *tracer) build(jrecs map[uint64]orec) (out []act, problems []string, sta
 			verID, knowV = ev.a, true
 			info := ev.aux
 			if info == nil {
-				bad("setVersion event %d without commit information", ev.a)
+				if i >= lastWorker {
+					stats["trailing_commit_dropped"]++ // in flight when the hooks were removed
+				} else {
+					bad("setVersion event %d without commit information", ev.a)
+				}
 				continue
 			}
 			if info.err != "" {
@@ -386,6 +418,9 @@ func (t *tracer) build(jrecs map[uint64]orec) (out []act, problems []string, sta
 				emit(act{kind: "KInst", es: info.es})
 				stats["flush_installs"]++
 			case "rewrite":
+				if info.minSeq > lastSeq && !pullForward(info.minSeq) {
+					bad("a compaction read minSeq %d while db.seq was %d with no publication in flight", info.minSeq, lastSeq)
+				}
 				emit(act{kind: "KRew", n: info.minSeq, es: info.es})
 				stats["rewrites"]++
 			case "txn":
